@@ -108,7 +108,7 @@ def _model_to_floats(model):
             continue
         v = model[dcl]
         try:
-            if z3.is_int_value(v):
+            if z3.is_int_value(v) or z3.is_bv_value(v):
                 out[dcl.name()] = v.as_long()
             elif z3.is_rational_value(v):
                 out[dcl.name()] = v.numerator_as_long() / v.denominator_as_long()
@@ -173,6 +173,23 @@ def cvc5_binary_check(smt2, timeout_s):
             pass
 
 
+def _mentions_machine_sorts(assertions):
+    import z3
+    seen = set()
+    stack = list(assertions)
+    while stack:
+        t = stack.pop()
+        i = t.get_id()
+        if i in seen:
+            continue
+        seen.add(i)
+        k = t.sort().kind()
+        if k in (z3.Z3_BV_SORT, z3.Z3_FLOATING_POINT_SORT, z3.Z3_ROUNDING_MODE_SORT):
+            return True
+        stack.extend(t.children())
+    return False
+
+
 def decide(assertions, timeout_ms, order=None):
     """Portfolio decision of one obligation: z3 'smt' tactic (nla with Groebner basis; fast on
     consequences of polynomial equalities, incomplete) / z3 default (nlsat, complete) / cvc5
@@ -188,6 +205,12 @@ def decide(assertions, timeout_ms, order=None):
         with open(os.path.join(os.environ["PQVERIF_DUMP"], hashlib.sha1(txt.encode()).hexdigest()[:12] + ".smt2"), "w") as f:
             f.write(txt)
     share = {"nlsat0": 0.04, "nla": 0.12, "nlsat": 0.5, "cvc5": 0.34}
+    if _mentions_machine_sorts(assertions):
+        # bit-vector / IEEE floating-point obligations (E-NS): one fresh z3 solver (bit-blasting + SAT), whole budget
+        s3 = z3.Solver()
+        s3.add(assertions)
+        r = z3_check(s3, budget)
+        return (r, "z3-bv-fp", s3) if r != "unknown" else ("unknown", "z3-bv-fp", None)
     for eng in order:
         tmo = max(int(budget * share[eng]), 1500)
         if eng in ("nlsat", "nlsat0"):
